@@ -94,7 +94,7 @@ def parse(tokens):
 
 ARITY = {"in0": 0, "in1": 0, "const": 0, "map": 1, "filter": 1, "flatmap": 1, "filtermap": 1, "enumerate": 1,
          "scan": 1, "unique": 1, "kscan": 1, "union": 2, "chain": 2, "join": 2, "fold": 1, "reduce": 1, "kfold": 1,
-         "foldb": 1, "xsing": 2, "smap": 1, "sfilter": 1}
+         "foldb": 1, "xsing": 2, "smap": 1, "sfilter": 1, "reduceb": 1, "joinb": 2, "antijoinb": 2, "notinb": 2}
 
 
 def emit(t):
@@ -225,6 +225,27 @@ def emit(t):
         if ka not in ("sT", "sN") or kb != "bsing" or la != "I" or lb != "I":
             raise Bad("xsing")
         return f"{ea}.cross_singleton({eb})", ka, "P"
+    if op == "reduceb":
+        e, k, el = emit(kids[0])
+        if el != "I" or k != "bT":
+            raise Bad("reduceb")
+        return f"{e}.reduce(q!({REDF[arg]}))", "bsing", "I"
+    if op in ("joinb", "antijoinb", "notinb"):
+        ea, ka, la = emit(kids[0])
+        eb, kb, lb = emit(kids[1])
+        if ka not in ("sT", "sN") or kb != "bT":
+            raise Bad(op)
+        if op == "joinb":
+            if la != "P" or lb != "P":
+                raise Bad("joinb elem")
+            return f"{ea}.join({eb})", ka, "J"
+        if op == "antijoinb":
+            if la != "P" or lb != "I":
+                raise Bad("antijoinb elem")
+            return f"{ea}.anti_join({eb})", ka, "P"
+        if la != lb:
+            raise Bad("notinb elem")
+        return f"{ea}.filter_not_in({eb})", ka, la
     raise Bad("op " + op)
 
 
@@ -632,6 +653,24 @@ tcyc unique chain cyc b0 notin b0 cyc
 tcyc tostream fold:sum chain cyc b0 cyc
 """.strip().splitlines()
 
+HAND_C28B = """
+reduceb:rmax const:3,1,4
+reduceb:rpoly map:inc const:3,1,4
+xsing in0 reduceb:rmax const:2,5
+xsing in0 reduceb:rsum const:-
+joinb map:kv3 in0 map:kv3 const:3,1,4,7
+map:flat joinb map:kv3 in0 map:kv3 const:1,4
+enumerate map:add2 map:flat joinb map:kv3 in0 map:kv3 const:1,4
+joinb map:kv3 union in0 in1 map:kv3 const:0,3
+antijoinb map:kv3 in0 const:0,2
+antijoinb map:kv3 union in0 in1 const:1
+notinb in0 const:1,2,3
+notinb union in0 in1 const:0
+fold:poly notinb in0 const:1,2,3
+kfold:sum map:flat joinb map:kv3 in0 map:kv3 const:1,4
+scan:runsum map:snd antijoinb map:kv3 in0 const:1
+""".strip().splitlines()
+
 HAND_C29 = """
 kfold:poly map:kv3 map:inc in0
 kscan:stop map:kv3 filter:pos in0
@@ -715,6 +754,10 @@ def build_corpus():
         toks = line.split()
         lines, k = temit_program(toks)
         progs.append(("c30", k, " ".join(toks)))
+    for line in HAND_C28B:
+        toks = line.split()
+        e, k, el = emit(parse(toks))
+        progs.append((tags_for(toks, "c28"), k, " ".join(toks)))
     return progs
 
 
